@@ -136,8 +136,13 @@ def r1_r2_init(repo, rep):
   want = {'values': resp, 'index': "'geo'", 'columns': "'date'"}
   for k, v in want.items():
     a = au.arg(pc, {'values': 0, 'index': 1, 'columns': 2}[k], k)
-    rep.check(a is not None and norm(a) == v, 'R1/ingestion-pivot', 'pivot %s=%s' % (k, v), f.qualname, '%s=%s' % (k, norm(a) if a is not None else 'missing'),
-              'the panel is pivoted with %s=%s instead of %s' % (k, norm(a) if a is not None else 'missing', v), f.loc(pc))
+    if a is None:
+      rep.check(False, 'R1/ingestion-pivot', 'pivot %s=%s' % (k, v), f.qualname, '%s=missing' % k,
+                'the panel is pivoted with %s=missing instead of %s' % (k, v), f.loc(pc))
+      continue
+    a_x = rd.expand(pn, a, depth=8, keep=(resp,), aliases=True)[0]
+    rep.check_term(norm(a) == v or norm(a_x) == v, a_x, (resp,), 'R1/ingestion-pivot', 'pivot %s=%s' % (k, v), f.qualname, '%s=%s' % (k, norm(a)),
+                   'the panel is pivoted with %s=%s instead of %s' % (k, norm(a), v), f.loc(pc))
   agg = au.arg(pc, 3, 'aggfunc')
   rep.check(agg is None or norm(agg) in ("'mean'", 'np.mean'), 'R1/ingestion', 'pivot aggregates duplicate cells with the default mean', f.qualname,
             'aggfunc=%s' % (norm(agg) if agg is not None else 'default'), 'unexpected aggfunc %s' % (norm(agg) if agg is not None else ''), f.loc(pc), nontrivial=False)
